@@ -64,6 +64,14 @@ func expected(name string, k *cuworld.Kernel, g cuworld.Geometry) []byte {
 			}
 		case "k8_store_then_endpgm":
 			out(uint32(l) + 9)
+		case "k9_exit_with_pending_store_while_others_wait":
+			if l < 64 {
+				out(uint32(l) + 9)
+			} else if nb < 64 {
+				out(0)
+			} else {
+				out(uint32(nb))
+			}
 		default:
 			panic("no reference for " + name)
 		}
@@ -269,7 +277,7 @@ func body(k *cuworld.Kernel, g cuworld.Geometry, o cuworld.TimingOpts) explore.B
 func main() {
 	r := harness.Start("C14", "model_checking")
 	ks := cuworld.LoadKernels(harness.Dir())
-	names := []string{"k1_lds_barrier", "k2_global_barrier", "k3_two_barriers", "k4_waitcnt_vm", "k5_waitcnt_lgkm", "k6_early_exit_before_barrier", "k7_late_exit_without_barrier", "k8_store_then_endpgm"}
+	names := []string{"k1_lds_barrier", "k2_global_barrier", "k3_two_barriers", "k4_waitcnt_vm", "k5_waitcnt_lgkm", "k6_early_exit_before_barrier", "k7_late_exit_without_barrier", "k8_store_then_endpgm", "k9_exit_with_pending_store_while_others_wait"}
 
 	// --- the emulation CU as a second implementation: values and executed-PC sequences
 	type geo = cuworld.Geometry
